@@ -5,7 +5,7 @@ D=/verif/seeded/$ID
 cd /repo && git apply $D/patch.diff || { echo "patch does not apply"; exit 3; }
 cd /verif
 for c in "$@"; do
-  ./check $c --tier quick > $D/eval_$c.txt 2>&1; rc=$?
+  timeout 1500 ./check $c --tier quick > $D/eval_$c.txt 2>&1; rc=$?
   echo "$ID $c exit=$rc $(grep -c '^VIOLATION' $D/eval_$c.txt) violation lines; first: $(grep -m1 -A1 '^VIOLATION' $D/eval_$c.txt | tail -1 | cut -c1-160)"
 done
 git -C /repo checkout -- .
